@@ -1060,6 +1060,7 @@ func c14(c *core.Ctx, r *core.Report) {
 
 	rule(r, "C14.R7", "ParseRate's two arms agree: both parse the count with Atoi and reject negative counts; the `/` arm returns the parsed duration, the bare arm returns one second", func() {
 		pr := c.MustFn("internal/trigger/rate", "ParseRate")
+		rejTests := rejectingTests(pr, 3)
 		slash, bare := 0, 0
 		for _, ret := range an.Returns(pr) {
 			if !isNilConst(ret.Results[2]) {
@@ -1075,7 +1076,8 @@ func c14(c *core.Ctx, r *core.Report) {
 					continue
 				}
 				// the arms are told apart by what they return as the unit: a parsed duration or the constant second
-				rateV := an.RootFV(pr, p.OnPath(stripAllocsOnPath(p, ret.Results[0]))).Resolve(nil).V
+				rateFV := an.RootFV(pr, p.OnPath(stripAllocsOnPath(p, ret.Results[0]))).Resolve(nil)
+				rateV := rateFV.V
 				unitFV := an.RootFV(pr, p.OnPath(stripAllocsOnPath(p, ret.Results[1]))).Resolve(nil)
 				unitV := unitFV.V
 				rate, unit := an.D().Of(rateV), an.D().Of(unitV)
@@ -1086,7 +1088,19 @@ func c14(c *core.Ctx, r *core.Report) {
 						negRejected = true
 					}
 				}
-				countOK := atoi != nil && len(pr.Params) > 0 && dependsOn(atoi.Call.Args[0], pr.Params[0])
+				// … or by a rejecting test in the helper that parsed the count
+				if atoi != nil && !negRejected {
+					for _, t := range rejTests {
+						k, isK := an.Strip(t.Y.V).(*ssa.Const)
+						if !isK || k.Value == nil || callBehind(an.Strip(t.X.V), "strconv", "Atoi") != atoi {
+							continue
+						}
+						if (t.Op == token.LSS && constant.Sign(k.Value) == 0) || (t.Op == token.LEQ && k.Int64() == -1) {
+							negRejected = true
+						}
+					}
+				}
+				countOK := atoi != nil && len(pr.Params) > 0 && (dependsOn(atoi.Call.Args[0], pr.Params[0]) || dependsOnFV(an.FV{V: atoi.Call.Args[0], F: rateFV.F}, pr.Params[0]))
 				if pd := callBehind(unitV, "time", "ParseDuration"); pd != nil {
 					slash++
 					pdArg := an.FV{V: pd.Call.Args[0], F: unitFV.F}
